@@ -24,7 +24,10 @@ func containersDriver(c *core.Ctx) (string, error) {
 	}, "containersdrv")
 }
 
-type treeCfg struct{ K, V int }
+type treeCfg struct {
+	K, V  int
+	VKeys []int // keys that take all V values; the others only value 1
+}
 
 var rotationClasses = []string{"ins:rotL", "ins:rotR", "ins:bigL", "ins:bigR",
 	"rem:rotL", "rem:rotR", "rem:bigL", "rem:bigR", "ext:rotL", "ext:bigL"}
@@ -55,22 +58,25 @@ func runC41(c *core.Ctx) error {
 	c.Logf("fresh leaf stored height = %d", leafH)
 
 	// ---- design level: with the textbook convention the transcribed algorithm is strictly AVL ----
-	kd := c.Pick(8, 9)
-	rd, err := c.MustTLC(core.TLCOpts{Module: "MC_ContainersTree", Cfg: "MC_ContainersTree.cfg", Workers: 4, Timeout: 10 * time.Minute,
-		OnEmit: func(json.RawMessage) {},
-		Consts: map[string]string{"KEYS": setLit(1, kd), "VALS": "{1}", "LEAFH": "1", "STRICT": "TreeStrictAVL"}})
-	if err != nil {
-		return fmt.Errorf("design-level model (LeafH = 1, strict AVL): %v", err)
+	// (model only; when the code itself uses 1 the replayed configurations below check it anyway)
+	if c.Thorough() && leafH != 1 {
+		kd := 9
+		rd, err := c.MustTLC(core.TLCOpts{Module: "MC_ContainersTree", Cfg: "MC_ContainersTree.cfg", Workers: 4, Timeout: 10 * time.Minute,
+			OnEmit: func(json.RawMessage) {},
+			Consts: map[string]string{"KEYS": setLit(1, kd), "VALS": "{1}", "VKEYS": "{}", "LEAFH": "1", "STRICT": "TreeStrictAVL"}})
+		if err != nil {
+			return fmt.Errorf("design-level model (LeafH = 1, strict AVL): %v", err)
+		}
+		c.Add("states", rd.Distinct)
+		c.Add("transitions", rd.Generated)
+		c.Set("design_strict_avl_states_leafh1", rd.Distinct)
+		c.Logf("design model LeafH=1 keys 1..%d: strict AVL invariant holds on %d states (%v)", kd, rd.Distinct, rd.Wall)
 	}
-	c.Add("states", rd.Distinct)
-	c.Add("transitions", rd.Generated)
-	c.Set("design_strict_avl_states_leafh1", rd.Distinct)
-	c.Logf("design model LeafH=1 keys 1..%d: strict AVL invariant holds on %d states (%v)", kd, rd.Distinct, rd.Wall)
 
 	// ---- TreeMap: edge replay ----
-	cfgs := []treeCfg{{5, 2}, {8, 1}}
+	cfgs := []treeCfg{{7, 2, []int{4}}}
 	if c.Thorough() {
-		cfgs = []treeCfg{{6, 2}, {9, 1}}
+		cfgs = []treeCfg{{6, 2, rangeInts(1, 6)}, {9, 1, nil}}
 	}
 	rot := map[string]int{}
 	var unbalanced []unbalancedState
@@ -92,21 +98,14 @@ func runC41(c *core.Ctx) error {
 	}
 
 	// ---- CircularSlice: edge replay ----
-	type sliceCfg struct {
-		MaxCap  int
-		Reserve []int
-		ValMod  int
-		Pair    bool
-	}
-	scfgs := []sliceCfg{{16, []int{0, 3, 5, 8, 11, 16}, 3, false}, {4, []int{2, 4}, 2, true}}
-	if c.Thorough() {
-		scfgs = []sliceCfg{{32, []int{0, 3, 5, 8, 11, 16, 24, 32}, 3, false}, {8, []int{3, 8}, 2, true}}
-	}
 	sliceStats := map[string]int{}
-	for _, sc := range scfgs {
-		if err := replaySlice(c, drv, sc.MaxCap, sc.Reserve, sc.ValMod, sc.Pair, sliceStats); err != nil {
-			return err
-		}
+	if c.Thorough() {
+		err = replaySlice(c, drv, 32, []int{0, 2, 3, 5, 8, 11, 16, 24, 32}, 3, 5, sliceStats)
+	} else {
+		err = replaySlice(c, drv, 16, []int{0, 2, 3, 5, 8, 11, 16}, 3, 3, sliceStats)
+	}
+	if err != nil {
+		return err
 	}
 	c.Set("slice_edge_classes", sliceStats)
 	for _, k := range []string{"Push", "Pop", "Reserve", "Clear", "DeepAssign", "Swap", "push_grows", "push_wraps", "pop_wraps", "target_wrapped", "reserve_unwraps", "pop_panics_observed", "front_panics_observed", "index_panics_observed"} {
@@ -151,7 +150,7 @@ func replayTree(c *core.Ctx, drv string, tc treeCfg, leafH int, rot map[string]i
 	}
 	res, err := c.MustTLC(core.TLCOpts{Module: "MC_ContainersTree", Cfg: "MC_ContainersTree.cfg", Workers: 4, DumpDot: true,
 		Coverage: c.Thorough(), Timeout: 12 * time.Minute, HeapMB: 6144,
-		Consts: map[string]string{"KEYS": setLit(1, tc.K), "VALS": setLit(1, tc.V), "LEAFH": strconv.Itoa(leafH), "STRICT": strict},
+		Consts: map[string]string{"KEYS": setLit(1, tc.K), "VALS": setLit(1, tc.V), "VKEYS": setOf(tc.VKeys), "LEAFH": strconv.Itoa(leafH), "STRICT": strict},
 		OnEmit: func(p json.RawMessage) {
 			var m map[string]any
 			if err := json.Unmarshal(p, &m); err != nil {
@@ -197,7 +196,7 @@ func replayTree(c *core.Ctx, drv string, tc treeCfg, leafH int, rot map[string]i
 	}
 	c.Add("states", res.Distinct)
 	c.Add("transitions", len(g.Edges))
-	c.Logf("TLC MC_ContainersTree keys 1..%d vals 1..%d leafH=%d: %d states, %d transitions, depth %d (%v)", tc.K, tc.V, leafH, res.Distinct, len(g.Edges), res.Depth, res.Wall)
+	c.Logf("TLC MC_ContainersTree keys 1..%d vals 1..%d (all values for keys %v) leafH=%d: %d states, %d transitions, depth %d (%v)", tc.K, tc.V, tc.VKeys, leafH, res.Distinct, len(g.Edges), res.Depth, res.Wall)
 	if c.Thorough() {
 		c.Set(fmt.Sprintf("tlc_action_coverage_tree_k%d_v%d", tc.K, tc.V), res.ActionCover)
 		for _, a := range []string{"Set", "Delete", "Update"} {
@@ -420,11 +419,11 @@ func reportUnbalanced(c *core.Ctx, drv string, ub []unbalancedState, leafH int) 
 
 // ---------------------------------------------------------------------------
 
-func replaySlice(c *core.Ctx, drv string, maxCap int, reserve []int, valMod int, pair bool, stats map[string]int) error {
+func replaySlice(c *core.Ctx, drv string, maxCap int, reserve []int, valMod int, pairCap int, stats map[string]int) error {
 	res, err := c.MustTLC(core.TLCOpts{Module: "MC_ContainersSlice", Cfg: "MC_ContainersSlice.cfg", Workers: 4, DumpDot: true,
 		Coverage: c.Thorough(), Timeout: 10 * time.Minute,
 		Consts: map[string]string{"MAXCAP": strconv.Itoa(maxCap), "RESERVE": setOf(reserve), "VALMOD": strconv.Itoa(valMod),
-			"PAIR": strings.ToUpper(strconv.FormatBool(pair))}})
+			"PAIRCAP": strconv.Itoa(pairCap)}})
 	if err != nil {
 		return err
 	}
@@ -466,9 +465,9 @@ func replaySlice(c *core.Ctx, drv string, maxCap int, reserve []int, valMod int,
 	}
 	c.Add("states", res.Distinct)
 	c.Add("transitions", len(g.Edges))
-	c.Logf("TLC MC_ContainersSlice maxCap=%d reserve=%v valMod=%d pair=%v: %d states, %d transitions, depth %d (%v)", maxCap, reserve, valMod, pair, res.Distinct, len(g.Edges), res.Depth, res.Wall)
+	c.Logf("TLC MC_ContainersSlice maxCap=%d reserve=%v valMod=%d pairCap=%d: %d states, %d transitions, depth %d (%v)", maxCap, reserve, valMod, pairCap, res.Distinct, len(g.Edges), res.Depth, res.Wall)
 	if c.Thorough() {
-		c.Set(fmt.Sprintf("tlc_action_coverage_slice_cap%d_pair%v", maxCap, pair), res.ActionCover)
+		c.Set(fmt.Sprintf("tlc_action_coverage_slice_cap%d_paircap%d", maxCap, pairCap), res.ActionCover)
 	}
 	checkNode := func(node int, got map[string]any) string {
 		if p, _ := got["panic"].(string); p != "" {
@@ -580,7 +579,7 @@ func traceC41(c *core.Ctx, drv string, leafH int) error {
 	defer p.Close()
 	p.Limit = 5 * time.Minute
 	maxKey := 1000
-	nTree, nSlice := c.Pick(9000, 100000), c.Pick(4000, 30000)
+	nTree, nSlice := c.Pick(6000, 100000), c.Pick(3000, 30000)
 	tf, sf := filepath.Join(c.Scratch, "tree.ndjson"), filepath.Join(c.Scratch, "slice.ndjson")
 	var got map[string]any
 	if err := p.Call(map[string]any{"obj": "treetrace", "nk": maxKey, "seed": c.Seed, "count": nTree, "out": tf}, &got); err != nil {
@@ -629,7 +628,7 @@ func traceC41(c *core.Ctx, drv string, leafH int) error {
 				popPanics++
 			}
 		}
-		if n := num(e["n"]); n > maxN {
+		if n := num(e["n"]); n > maxN && (o == "set" || o == "del" || o == "upd") {
 			maxN = n
 		}
 		if th := num(e["th"]); th > maxTh {
@@ -729,7 +728,7 @@ func traceC41(c *core.Ctx, drv string, leafH int) error {
 			return false
 		}},
 	}
-	ncor := c.Pick(2, len(corruptions))
+	ncor := c.Pick(1, len(corruptions))
 	for i := 0; i < ncor; i++ {
 		co := corruptions[(int(c.Seed)+i)%len(corruptions)]
 		if c.Thorough() {
